@@ -77,6 +77,9 @@ Proof.
   apply IH. apply run_op_reach. assumption.
 Qed.
 
+Lemma run_order_init_reach fuel order : reach (run_order cfg fuel order (init cfg)).
+Proof. apply run_order_reach. constructor. Qed.
+
 Definition root_err (s : state) : option error := herr (hs s 0).
 
 (* ---- frame facts of a step ---- *)
@@ -485,14 +488,15 @@ Proof.
   intros J H. constructor.
   - intros x. destruct (i2_prog _ J x) as (pre & Hp).
     destruct (Nat.eq_dec x t) as [->|Hx]; [|rewrite (step_other _ _ _ x H Hx); eauto].
-    step_cases H; sim; rewrite upd_same; sim; eauto; eapply suffix_tl; eassumption.
+    step_cases H; sim; rewrite upd_same; sim;
+      try match goal with E : prog _ = _ |- _ => rewrite E end; eauto; eapply suffix_tl; eassumption.
   - intros x c Hc. destruct (Nat.eq_dec x t) as [->|Hx]; [|rewrite (step_other _ _ _ x H Hx) in *; apply (i2_call _ J); assumption].
     pose proof (i2_call _ J t) as K.
     step_cases H; sim; rewrite upd_same in *; sim; rewrite ?Epc in K; cbn [pc_call] in *; try discriminate;
       try (inversion Hc; subst; sim; eauto; fail); try (apply K; assumption).
   - intros Hp. pose proof (i2_plain _ J) as K. pose proof (i2_call _ J t) as C. pose proof (i2_prog _ J t) as (pre & Hpre).
     step_cases H; sim; try (apply K; assumption).
-    rewrite Epc in C. destruct (C _ eq_refl) as (rest & Hr). exists t, (eh c), (etag c).
+    try rewrite Epc in C. cbn [pc_call] in C. destruct (C _ eq_refl) as (rest & Hr). exists t, (eh c), (etag c).
     rewrite Hpre, Hr. apply in_or_app. right. left. congruence.
   - intros tag e Hin. pose proof (i2_rlog _ J) as K.
     step_cases H; sim; try (apply K; assumption).
@@ -511,7 +515,7 @@ Theorem never_abort_invalid_source_lemma :
 Proof.
   intros Hrep Hplain sched s Hn. pose proof (reach_inv2 _ (init_reach_run sched)) as J. fold s in J.
   apply accept_all_invalid_source_lemma; [assumption| |].
-  - destruct (plain_seen s) eqn:E; [|reflexivity]. destruct (i2_plain _ J E) as (t & h & tag & Hin).
+  - destruct (plain_seen s) eqn:E; [|exact E]. destruct (i2_plain _ J E) as (t & h & tag & Hin).
     exfalso. eapply Hplain; eassumption.
   - intros tag e Hin. destruct (i2_rlog _ J _ _ Hin) as (idx & Hi). rewrite Hrep in Hi. discriminate.
 Qed.
@@ -525,7 +529,7 @@ Theorem warnings_inert_lemma : forall s t s',
   (tlog (threads s' t) = tlog (threads s t) \/ tlog (threads s' t) = LWarn :: tlog (threads s t)) /\
   (rlog s' = rlog s \/ exists tag, rlog s' = CWarn tag :: rlog s).
 Proof.
-  intros s t s' Hw H. pose proof (step_other _ _ _ ^~ H) as Ho.
+  intros s t s' Hw H.
   unfold at_warning in Hw.
   step_cases H; try discriminate; sim; rewrite ?upd_same; sim;
     repeat split; try reflexivity; try (intros x Hx; apply upd_other; assumption); eauto.
